@@ -13,7 +13,12 @@ RULE = ('enumeration of the C11 lattice (start, end in -1..16, size in '
         'lazy __getitem__/__len__ class of length 0..14 (thorough) or '
         '{3, 9, 14} (quick) and unbounded; unbatched renderings of bounded '
         'iterators; whole-sequence requests (sort, reverse, sequence-length, '
-        'next-batches, statistics) only for termination.  Non-trivial: '
+        'next-batches, statistics) only for termination; a sub-lattice x '
+        'producer kinds (iterator with / without __length_hint__, '
+        'generator, map, itertools.chain, lazy class with / without '
+        '__len__) x tag variants that must stay lazy (reverse_expr giving a '
+        'false value, prefix, no_push_item, skip_unauthorized, mapping, '
+        'sequence given by expression, literal parameters).  Non-trivial: '
         'unbounded input, or bounded with length > end shown + step size + '
         'orphan.  Tuples are distinct by construction.')
 ASSUMPTIONS = [
@@ -52,6 +57,13 @@ class Counting:
         return self.pulled
 
 
+class Hinted(Counting):
+    """Iterator that also offers the optional __length_hint__."""
+
+    def __length_hint__(self):
+        return 1000 if self.L is None else max(self.L - self.pulled, 0)
+
+
 class LazySeq:
     def __init__(self, L):
         self.L = L
@@ -75,6 +87,50 @@ class LazySeq:
         return self.L
 
 
+class LazyNoLen(LazySeq):
+    __len__ = None
+
+
+VARIANTS = {
+    'reverse_expr-0': '<dtml-in s start=st end=en size=sz orphan=orp '
+                      'overlap=ov reverse_expr="0">%s<dtml-else>EMPTY'
+                      '</dtml-in>',
+    'reverse_expr-var': '<dtml-in s start=st end=en size=sz orphan=orp '
+                        'overlap=ov reverse_expr="rv">%s<dtml-else>EMPTY'
+                        '</dtml-in>',
+    'prefix': '<dtml-in s start=st end=en size=sz orphan=orp overlap=ov '
+              'prefix=pq>%s<dtml-else>EMPTY</dtml-in>',
+    'no_push_item': '<dtml-in s no_push_item start=st end=en size=sz '
+                    'orphan=orp overlap=ov>%s<dtml-else>EMPTY</dtml-in>',
+    'skip_unauthorized': '<dtml-in s skip_unauthorized start=st end=en '
+                         'size=sz orphan=orp overlap=ov>%s<dtml-else>EMPTY'
+                         '</dtml-in>',
+    'expr': '<dtml-in "s" start=st end=en size=sz orphan=orp overlap=ov>'
+            '%s<dtml-else>EMPTY</dtml-in>',
+    'expr=': '<dtml-in expr="s" size=sz start=st end=en orphan=orp '
+             'overlap=ov>%s<dtml-else>EMPTY</dtml-in>',
+    'literal': None,     # parameters written as integer literals
+    'plain': '<dtml-in s start=st end=en size=sz orphan=orp overlap=ov>%s'
+             '<dtml-else>EMPTY</dtml-in>',
+}
+SEQKINDS = ['iter', 'hinted', 'gen', 'map', 'chain', 'lazy', 'lazy-nolen']
+
+
+def make_seq(seqkind, L):
+    """-> (counter object, value handed to the template)"""
+    if seqkind in ('lazy', 'lazy-nolen'):
+        c = (LazySeq if seqkind == 'lazy' else LazyNoLen)(L)
+        return c, c
+    c = Hinted(L) if seqkind == 'hinted' else Counting(L)
+    if seqkind in ('iter', 'hinted'):
+        return c, c
+    if seqkind == 'gen':
+        return c, (x for x in c)
+    if seqkind == 'map':
+        return c, map(int, c)
+    return c, itertools.chain(c)
+
+
 def template(kind='batch'):
     from DocumentTemplate import HTML
     t = _T.get(kind)
@@ -91,13 +147,23 @@ def template(kind='batch'):
 
 
 def check(case):
-    L, start, end, size, orphan, overlap, seqkind = case
-    seq = Counting(L) if seqkind == 'iter' else LazySeq(L)
+    L, start, end, size, orphan, overlap, seqkind = case[:7]
+    variant = case[7] if len(case) > 7 else None
+    seq, handed = make_seq(seqkind, L)
+    if variant == 'literal':
+        tkey = ('<dtml-in s start=%d end=%d size=%d orphan=%d overlap=%d>'
+                '%%s<dtml-else>EMPTY</dtml-in>' % (start, end, size, orphan,
+                                                   overlap)) % BODY
+    elif variant:
+        tkey = VARIANTS[variant] % BODY
+    else:
+        tkey = 'batch'
+    seqkind = 'lazy' if seqkind.startswith('lazy') else 'iter'
     try:
         with cpu_limit(5.0):
-            out = template()(s=seq if seqkind == 'lazy' else iter(seq),
-                             st=start, en=end, sz=size, orp=orphan,
-                             ov=overlap)
+            out = template(tkey)(s=handed, rv=0,
+                                 st=start, en=end, sz=size, orp=orphan,
+                                 ov=overlap)
     except Runaway:
         return 'no-termination', '%r: more than 20000 elements pulled' % case
     except CpuTimeout:
@@ -202,6 +268,11 @@ def plan(tier, seed):
             for half in (0, 1):
                 shards.append(dict(kind='enum', L=L, seqkind=kind, half=half))
     shards.append(dict(kind='plain'))
+    for L in (None, 9, 14):
+        for kind in SEQKINDS:
+            if kind == 'lazy-nolen' and L is not None:
+                continue
+            shards.append(dict(kind='variants', L=L, seqkind=kind))
     return shards
 
 
@@ -222,6 +293,19 @@ def run_shard(shard):
                     acc.fail(bad[0], ['whole', i, L], bad[1])
         return acc.result()
     L, kind = shard['L'], shard['seqkind']
+    if shard['kind'] == 'variants':
+        for variant in sorted(VARIANTS):
+            for start, end, size, orphan, overlap in itertools.product(
+                    (-1, 0, 1, 2, 5, 9), (-1, 0, 2, 6, 16), (-1, 0, 1, 3, 7),
+                    (0, 1, 3), (0, 1, 2)):
+                case = [L, start, end, size, orphan, overlap, kind, variant]
+                bad = check(case)
+                acc.case(case, nontrivial(case), klass=[
+                    'variant:' + variant, 'producer:' + kind],
+                    distinct_by_construction=True)
+                if bad:
+                    acc.fail(bad[0], case, bad[1])
+        return acc.result()
     starts = list(R['start'])[shard['half']::2]
     for start, end, size, orphan, overlap in itertools.product(
             starts, R['end'], R['size'], R['orphan'], R['overlap']):
